@@ -12,6 +12,7 @@ def make_cases(tier, rng):
     def add(**kw):
         kw.setdefault("history", "")
         kw.setdefault("hash_nil", False)
+        kw.setdefault("launch", "cmd")
         kw["name"] = "ck%d" % len(cases)
         cases.append(kw)
     files = [(rng.choice([0, 1, 100, 4096, 70000]), rng.randint(1, 1 << 20)) for _ in range(1 if tier == "quick" else 12)]
@@ -35,6 +36,11 @@ def make_cases(tier, rng):
     for h in ["sha512", "sha1", "md5"]:
         for cl in ["exact", "bitflip", "prefix", "extended", "empty"]:
             add(hash=h, **{"class": cl}, pos=rng.randint(0, 1000), file_size=rng.choice([1, 5000]), file_seed=rng.randint(1, 99999))
+    # SecureConfig together with a custom runner: there is no command path, nothing may ever be launched
+    for h in (["sha256"] if tier == "quick" else list(HLEN)):
+        for cl in ["exact", "bitflip", "prefix", "extended", "empty", "other"]:
+            for hn in (False, True):
+                add(hash=h, hash_nil=hn, **{"class": cl}, pos=rng.randint(0, 100), file_size=rng.choice([1, 5000]), file_seed=rng.randint(1, 99999), launch="runner")
     # histories on one SecureConfig value
     for _ in range(6 if tier == "quick" else 40):
         add(hash=rng.choice(list(HLEN)), **{"class": "exact"}, pos=0, file_size=rng.choice([10, 5000]), file_seed=rng.randint(1, 99999),
